@@ -190,6 +190,12 @@ func runPO(ld *Loaded, r *sym.Run, st *sym.State, j Job, opt Options, scen int) 
 	}
 	for range queries {
 		res := <-resCh
+		if res.Res == smt.Sat && (res.Name == "safety" || res.Name == "quiescence" || res.Name == "race") && (len(res.FailedEv) > 0 || len(res.Races) > 0) {
+			replayPO(ld, po, st, j, opt, &res)
+			if opt.Verbose {
+				fmt.Fprintf(os.Stderr, "  PO %s scen %d query %s: schedule replay: %s labels=%v\n", j.Name(), scen, res.Name, res.Replay, res.ReplayLabels)
+			}
+		}
 		out.Results = append(out.Results, res)
 		if opt.Verbose {
 			fmt.Fprintf(os.Stderr, "  PO %s scen %d query %s: %s (%s, %.1fs)\n", j.Name(), scen, res.Name, res.Res, res.Solver, res.Time.Seconds())
@@ -200,6 +206,45 @@ func runPO(ld *Loaded, r *sym.Run, st *sym.State, j Job, opt Options, scen int) 
 	}
 	sort.Slice(out.Results, func(a, b int) bool { return out.Results[a].Name < out.Results[b].Name })
 	return out
+}
+
+// replayPO re-executes the schedule of a SAT model sequentially over one shared heap (see
+// sym/poreplay.go) and records the outcome in the result.
+func replayPO(ld *Loaded, po *sym.PO, st *sym.State, j Job, opt Options, res *sym.POResult) {
+	if res.Res != smt.Sat || len(res.Sched) == 0 || opt.NoReplay {
+		return
+	}
+	s, err := smt.NewSolver("z3-new", 20000)
+	if err != nil {
+		res.Replay = "no solver: " + err.Error()
+		return
+	}
+	defer s.Close()
+	r := sym.NewRun(ld.Eng, s, "poreplay:"+j.Name())
+	r.Prop = opt.Prop
+	r.Relabel = j.H.Relabel
+	if j.H.Loop > 0 {
+		r.LoopBound = j.H.Loop
+	}
+	r.MaxPaths = 20000
+	rp := sym.NewPOReplay(po, res.Sched, "")
+	func() {
+		defer func() {
+			if e := recover(); e != nil {
+				res.Replay = fmt.Sprintf("replay panic: %v", e)
+			}
+		}()
+		rp.Run(r, st)
+	}()
+	if res.Replay != "" {
+		return
+	}
+	res.ReplayLabels = rp.Labels
+	if rp.Complete {
+		res.Replay = "ok"
+	} else {
+		res.Replay = fmt.Sprintf("schedule replay stopped after %d of %d events: %s", rp.Best, len(rp.Sched), rp.BestWhy)
+	}
 }
 
 func poTraceText(res sym.POResult) string {
